@@ -62,6 +62,15 @@ def key_term(I, key):
         key = I.unwrap_opt(key, "dict key")
     if is_intlike(key):
         return int_term(key)
+    from .values import Opaque, OpaqueSort
+
+    if isinstance(key, (Opaque, str)):
+        # string keys through an uninterpreted numbering of strings (not assumed injective: two names may
+        # share a slot in some models, which only adds behaviours)
+        from .interp import str_const
+
+        t_ = key.t if isinstance(key, Opaque) else str_const(I.ctx, key)
+        return z3.Function("strid", OpaqueSort, z3.IntSort())(t_)
     raise Unsupported(f"symbolic-map key of kind {type(key).__name__}")
 
 
@@ -81,6 +90,13 @@ def find_slot(I, m: SMap, kt, create=True):
             raise Unsupported("map key equality undetermined in formula mode")
         if I.ctx.branch(eq):
             return s
+    if I.fmode and I.in_old:
+        # pre-state view: entries materialised later in the run existed at entry; their entry-time
+        # values were recorded when they were first touched
+        for kt0, v0 in m.entry_slots:
+            eq = z3.simplify(kt0 == kt)
+            if z3.is_true(eq) or (not z3.is_false(eq) and I.ctx.prove(eq)):
+                return Slot(kt0, v0, "entry")
     if not create:
         return None
     if I.fmode:
@@ -107,10 +123,7 @@ def getitem(I, m: SMap, key):
     kt = key_term(I, key)
     present = z3.Select(m.has, kt)
     if I.fmode:
-        s = find_slot(I, m, kt, create=False)
-        if s is None:
-            raise Unsupported("formula-mode read of a map key that the program never touched")
-        return s.value
+        return _fmode_value(I, m, kt)
     s = find_slot(I, m, kt)
     if not I.ctx.branch(present):
         if m.default_factory is not None:
@@ -122,14 +135,39 @@ def getitem(I, m: SMap, key):
     return s.value
 
 
+def _fmode_value(I, m, kt):
+    """Value stored under key term kt, as a term, without branching: the materialised slot whose key
+    provably equals kt; otherwise an if-then-else over the slots kt may alias, ending in the (arbitrary)
+    value of a key nobody touched."""
+    s = find_slot(I, m, kt, create=False)
+    if s is not None:
+        return s.value
+    cands = []
+    for s_ in m.slots:
+        eq = z3.simplify(s_.key == kt)
+        if z3.is_false(eq) or I.ctx.prove(z3.Not(eq)):
+            continue
+        cands.append((eq, s_.value))
+    fresh = m.vtype.fresh(I, f"{m.name}[?{len(m.slots)}]")
+    if I.in_old is False and not cands:
+        ns = Slot(kt, fresh, "entry")
+        m.slots.append(ns)
+        from .snapshot import clone_graph
+
+        m.entry_slots.append((kt, clone_graph({"v": fresh})["v"]))
+        return fresh
+    acc = fresh
+    for eq, v in reversed(cands):
+        acc = I.ite(eq, v, acc)
+    return acc
+
+
 def get(I, m: SMap, key, default=None):
     kt = key_term(I, key)
     present = z3.Select(m.has, kt)
     if I.fmode:
-        s = find_slot(I, m, kt, create=False)
-        if s is None:
-            raise Unsupported("formula-mode read of a map key that the program never touched")
-        return SOpt(present, s.value) if default is None else I.ite(present, s.value, default)
+        v_ = _fmode_value(I, m, kt)
+        return SOpt(present, v_) if default is None else I.ite(present, v_, default)
     s = find_slot(I, m, kt)
     if default is None:
         p = z3.simplify(present)
